@@ -264,6 +264,84 @@ def rule_returns(chk):
         chk.undecided('gj-result-extraction', 'block-copy', node=ext, file=LA, func='gj_solve', detail=str(e))
 
 
+L3 = 'pysph/base/linalg3.pyx'
+
+
+def loops_over(stmt, fn):
+    """loop variables -> range text of the for loops enclosing stmt inside fn"""
+    out = {}
+    cur = stmt
+    while cur is not None and cur is not fn:
+        cur = getattr(cur, 'parent', None)
+        if isinstance(cur, ast.For) and isinstance(cur.target, ast.Name):
+            out[cur.target.id] = U(cur.iter).replace(' ', '')
+    return out
+
+
+def rule_eigen_wrapper(chk):
+    """the scaling wrapper around tred2/tql2: the zero-matrix shortcut is taken only when every entry is zero, every entry is scaled, every eigenvalue scaled back"""
+    t = M.cy(L3)
+    fn = M.find_func(t, 'eigen_decomposition')
+    M.set_parents(fn)
+    who = 'eigen_decomposition'
+    full = ('range(n)', 'range(3)')
+    acc = [a for a in ast.walk(fn) if isinstance(a, ast.AugAssign) and isinstance(a.op, ast.Add) and U(a.target) == 's']
+    ok = len(acc) == 1
+    if ok:
+        a = acc[0]
+        lp = loops_over(a, fn)
+        v = a.value
+        ok = isinstance(v, ast.Call) and M.call_name(v) in ('fabs', 'abs') and isinstance(v.args[0], ast.Subscript) and isinstance(v.args[0].value, ast.Subscript)
+        if ok:
+            i1, i2 = U(v.args[0].value.slice), U(v.args[0].slice)
+            base = U(v.args[0].value.value)
+            ok = i1 != i2 and lp.get(i1) in full and lp.get(i2) in full and base in ('A', 'V')
+            if ok and base == 'V':
+                cp = [x for x in ast.walk(fn) if isinstance(x, ast.Assign) and U(x.targets[0]) == 'V[%s][%s]' % (i1, i2) and U(x.value) == 'A[%s][%s]' % (i1, i2) and x.lineno < a.lineno]
+                ok = bool(cp)
+    chk.decide(ok, 'eigen-scaling-wrapper', 'scale-sums-every-entry', node=acc[0] if acc else fn, file=L3, func=who,
+               detail_bad='s must be the sum of |A[i][j]| over all nine entries: it decides `s == 0` (zero-matrix shortcut) - a partial sum sends non-zero matrices (e.g. pure shear, '
+                          'zero diagonal) to the shortcut, which returns d = 0, V = I', detail_ok='s += fabs(A[i][j]) for all i, j')
+    init = [x for x in fn.body if isinstance(x, (ast.AnnAssign, ast.Assign)) and U(x.target if isinstance(x, ast.AnnAssign) else x.targets[0]) == 's']
+    chk.decide(bool(init) and isinstance(init[0].value, ast.Constant) and init[0].value.value == 0, 'eigen-scaling-wrapper', 'scale-seeded-with-zero', node=init[0] if init else fn, file=L3, func=who,
+               detail_bad='s is not initialised to 0', detail_ok='s = 0.0')
+    br = [i for i in fn.body if isinstance(i, ast.If)]
+    ok = len(br) == 1 and U(br[0].test).replace(' ', '') in ('s==0', 's==0.0') and len(br[0].body) == 1 and isinstance(br[0].body[0], ast.Expr) and \
+        M.call_name(br[0].body[0].value) == 'zero_matrix_case' and [U(x) for x in br[0].body[0].value.args] == ['V', 'd']
+    chk.decide(ok, 'eigen-scaling-wrapper', 'zero-shortcut-guard', node=br[0] if br else fn, file=L3, func=who, detail_bad='the shortcut must be `if s == 0: zero_matrix_case(V, d)`',
+               detail_ok='if s == 0: zero_matrix_case(V, d)')
+    if br:
+        els = br[0].orelse
+        div = [a for s2 in els for a in ast.walk(s2) if isinstance(a, ast.AugAssign) and isinstance(a.op, ast.Div) and U(a.value) == 's']
+        ok = len(div) == 1 and isinstance(div[0].target, ast.Subscript) and isinstance(div[0].target.value, ast.Subscript) and U(div[0].target.value.value) == 'V'
+        if ok:
+            lp = loops_over(div[0], fn)
+            i1, i2 = U(div[0].target.value.slice), U(div[0].target.slice)
+            ok = i1 != i2 and lp.get(i1) in full and lp.get(i2) in full
+        chk.decide(ok, 'eigen-scaling-wrapper', 'every-entry-scaled', node=div[0] if div else br[0], file=L3, func=who, detail_bad='V[i][j] /= s must cover all entries', detail_ok='V[i][j] /= s for all i, j')
+        calls = [c for s2 in els for c in M.calls(s2) if M.call_name(c) in ('tred2', 'tql2')]
+        ok = [M.call_name(c) for c in sorted(calls, key=lambda c: c.lineno)] == ['tred2', 'tql2'] and all([U(x) for x in c.args][:2] == ['V', 'd'] for c in calls) and \
+            all(M.enclosing(c, (ast.For, ast.If, ast.While)) is br[0] for c in calls)
+        chk.decide(ok, 'eigen-scaling-wrapper', 'tred2-then-tql2', node=calls[0] if calls else br[0], file=L3, func=who, detail_bad='tridiagonalisation must be followed by the QL iteration on the same V, d',
+                   detail_ok='tred2(V, d, e); tql2(V, d, e)')
+        mul = [a for s2 in els for a in ast.walk(s2) if isinstance(a, ast.AugAssign) and isinstance(a.op, ast.Mult) and U(a.value) == 's']
+        ok = len(mul) == 1 and isinstance(mul[0].target, ast.Subscript) and U(mul[0].target.value) == 'd' and loops_over(mul[0], fn).get(U(mul[0].target.slice)) in full and \
+            bool(calls) and mul[0].lineno > max(c.lineno for c in calls)
+        chk.decide(ok, 'eigen-scaling-wrapper', 'eigenvalues-scaled-back', node=mul[0] if mul else br[0], file=L3, func=who, detail_bad='every eigenvalue must be multiplied by s after the iteration',
+                   detail_ok='d[i] *= s for all i')
+    z = M.find_func(t, 'zero_matrix_case')
+    M.set_parents(z)
+    dz = [a for a in ast.walk(z) if isinstance(a, ast.Assign) and isinstance(a.targets[0], ast.Subscript) and U(a.targets[0].value) == 'd']
+    vz = [a for a in ast.walk(z) if isinstance(a, ast.Assign) and isinstance(a.targets[0], ast.Subscript) and isinstance(a.targets[0].value, ast.Subscript) and U(a.targets[0].value.value) == 'V']
+    ok = len(dz) == 1 and isinstance(dz[0].value, ast.Constant) and dz[0].value.value == 0 and loops_over(dz[0], z).get(U(dz[0].targets[0].slice)) in full and len(vz) == 1
+    if ok:
+        i1, i2 = U(vz[0].targets[0].value.slice), U(vz[0].targets[0].slice)
+        lp = loops_over(vz[0], z)
+        ok = i1 != i2 and lp.get(i1) in full and lp.get(i2) in full and U(vz[0].value).replace(' ', '') in ('%s==%s' % (i1, i2), '%s==%s' % (i2, i1))
+    chk.decide(ok, 'eigen-scaling-wrapper', 'zero-case-returns-identity', node=z, file=L3, func='zero_matrix_case', detail_bad='for the zero matrix the result must be d = 0, V = identity',
+               detail_ok='d[i] = 0, V[i][j] = (i == j)')
+
+
 def main(chk):
     chk.explanation = ('Affine access signatures (E7) of the five helpers compared with definitional forms kept in '
                        'fixtures/linalg_ref.py (other counter names and loop orders); structural rules for gj_solve: the arg-max '
@@ -273,11 +351,13 @@ def main(chk):
     rule_helpers(chk)
     rule_gj(chk)
     rule_returns(chk)
+    rule_eigen_wrapper(chk)
     chk.unit('functions', list(HELPERS) + ['gj_solve'])
     if not any(o.verdict == 'VIOLATED' for o in chk.obs):
         chk.floor('obligations', len(chk.obs), 14)
     chk.assume('compyle transpiles these functions statement by statement (same source for Python and Cython)')
-    chk.note('linalg3.pyx (EISPACK tred2/tql2 eigen-decomposition): orthonormality and A V = V diag(d) are numeric facts; not decided')
+    chk.note('linalg3.pyx: only the scaling wrapper of eigen_decomposition is decided (which matrices take the zero shortcut, every entry scaled, eigenvalues scaled back); '
+             'tred2/tql2 themselves - orthonormality and A V = V diag(d) - are numeric facts; not decided')
 
 
 if __name__ == '__main__':
